@@ -49,6 +49,31 @@ def free_names(n, bound=frozenset()):
     return out
 
 
+def has_qualified(n):
+    return (n["k"] == "var" and bool(n["q"])) or any(has_qualified(c) for c in n["a"])
+
+
+def reaches(stmts, start, target):
+    """does some name of `start` depend (transitively, through the declarations of the module) on the declaration `target`?"""
+    deps = {st["s"]: free_names(st["a"][st["n"]], {b["s"] for b in st["a"][:st["n"]]}) for st in stmts if st["k"] == "decl"}
+    seen = set()
+    todo = list(start)
+    while todo:
+        x = todo.pop()
+        if x == target:
+            return True
+        if x in seen:
+            continue
+        seen.add(x)
+        todo.extend(deps.get(x, ()))
+    return False
+
+
+def enclosing_decl(stmts, path):
+    st = stmts[path[0] - 1]
+    return st["s"] if st["k"] == "decl" else None
+
+
 def replace_at(stmts, path, new):
     stmts = copy.deepcopy(stmts)
     node = stmts[path[0] - 1]
@@ -66,6 +91,9 @@ def name_with_let(prog, path, node, bound, fresh="zz_named"):
     if free_names(node) & bound or node["k"] in ("prop",) and False:
         return None
     m = prog["main"]
+    d = enclosing_decl(prog["mods"][m], path)
+    if d is not None and reaches(prog["mods"][m], free_names(node), d):
+        return None          # naming a part of a recursive definition moves the recursion point (another, equivalent, set of components)
     stmts = replace_at(prog["mods"][m], path, N("var", fresh))
     stmts.append(N("decl", fresh, a=[copy.deepcopy(node)]))
     q = copy.deepcopy(prog)
@@ -88,7 +116,7 @@ def move_to_module(prog, fresh="zz_moved"):
     m = prog["main"]
     stmts = prog["mods"][m]
     declared = {st["s"] for st in stmts if st["k"] == "decl"}
-    movable = [i for i, st in enumerate(stmts) if st["k"] == "decl" and st["q"] != "@"
+    movable = [i for i, st in enumerate(stmts) if st["k"] == "decl" and st["q"] != "@" and not has_qualified(st)
                and not (free_names(st["a"][st["n"]], {b["s"] for b in st["a"][:st["n"]]}) - {"concat"})]
     if not movable:
         return None
@@ -108,6 +136,8 @@ def inline_let(prog):
             name = st["s"]
             if name in free_names(rhs) or free_names(rhs) - {s2["s"] for s2 in stmts if s2["k"] == "decl"} - {"concat"}:
                 continue
+            if reaches(stmts, free_names(rhs), name):
+                continue          # on a cycle through other declarations: inlining would move the recursion point
             used = [False]
             blocked = [False]
 
@@ -132,3 +162,33 @@ def inline_let(prog):
                 q["mods"][m] = new
                 return q
     return None
+
+
+def has_annotations(prog):
+    def go(n):
+        return bool(n.get("ann")) or any(go(c) for c in n["a"])
+    return any(go(st) for stmts in prog["mods"].values() for st in stmts)
+
+
+def abstract_subterm(prog, path, node, bound, rng, fresh="zz_abs"):
+    """E[S]  ->  zz_abs S   with   let zz_abs zz_p = E[zz_p];   for a closed expression E and a closed proper
+    sub-expression S of it (beta-expansion: the sub-expression becomes the argument of a single-use function whose
+    body is the rest).  None when no such S exists."""
+    if free_names(node) & bound:
+        return None
+    d0 = enclosing_decl(prog["mods"][prog["main"]], path)
+    if d0 is not None and reaches(prog["mods"][prog["main"]], free_names(node), d0):
+        return None          # as for name_with_let: parts of a recursive definition are left alone
+    inner = [(p, n, b, cx) for p, n, b, cx in expr_paths([node]) if len(p) > 1 and cx == "expr" and not (free_names(n) & b)
+             and n["k"] not in ("bind",)]
+    # expr_paths treats `node` as statement 1: sub-paths start with [1, ...]
+    if not inner:
+        return None
+    p, s, b, cx = inner[rng.randrange(len(inner))]
+    body = replace_at([node], p, N("var", "zz_p"))[0]
+    m = prog["main"]
+    stmts = replace_at(prog["mods"][m], path, N("app", a=[N("var", fresh), copy.deepcopy(s)]))
+    stmts.insert(0, N("decl", fresh, n=1, a=[N("bind", "zz_p"), body]))
+    q = copy.deepcopy(prog)
+    q["mods"][m] = stmts
+    return q
